@@ -12,89 +12,558 @@ import (
 
 // C08 — malformed input never crashes, overflows the stack or hangs (partial: recursion and chain-loop guards).
 
-// guard functions: a call to one of these whose error/false result leaves the function bounds the recursion or detects a cycle.
-var c08GuardCalls = map[string]string{
-	"pkg/pdfcpu/model.CheckRecursionDepth":            "depth",
-	"pkg/pdfcpu/model.XRefTable.CheckRecursionDepth":  "depth",
-	"pkg/pdfcpu.checkBookmarkRecursionDepth":          "depth",
-	"pkg/pdfcpu.checkBookmarkCycle":                   "visited",
-	"pkg/pdfcpu/model.PageTreeVisit.Enter":            "visited",
-	"pkg/pdfcpu/model.FormFieldVisit.Enter":           "visited",
-	"pkg/pdfcpu/model.StructureTreeVisit.Enter":       "visited",
+// c08BaseGuards: functions whose nil error result means "the recursion is still inside its bound / the object was not visited before".
+// Confirmed by reading; rule C08.R0 checks that each still exists and still contains the comparison or map test it is trusted for.
+var c08BaseGuards = map[string]string{
+	"pkg/pdfcpu/model.CheckRecursionDepth":           "depth",
+	"pkg/pdfcpu/model.XRefTable.CheckRecursionDepth": "depth",
+	"pkg/pdfcpu/model.PageTreeVisit.Enter":           "visited",
+	"pkg/pdfcpu/model.FormFieldVisit.Enter":          "visited",
+	"pkg/pdfcpu/model.StructureTreeVisit.Enter":      "visited",
+	"pkg/pdfcpu/validate.enterNestedValidation":      "depth",
 }
 
-// guardKind inspects fn for a recursion guard that executes before the intra-SCC calls:
-//   "depth"   : call to a depth checker, or an inline `depth > limit -> return` comparison on an int parameter
-//   "visited" : test-and-set on a map parameter/captured map keyed by an object number, or call to a *Visit.Enter / cycle checker
-// Returns "" when none is found.
-func guardKind(fn *ssa.Function, scc map[*ssa.Function]bool) (kind, detail string) {
-	// instructions that are guards
-	guards := map[ssa.Instruction]string{}
+// c08TestCalls / c08SetCalls: bool-returning "already processed?" accessors and the calls that mark an object processed,
+// grouped by the state they share (the Valid / BeingValidated flags of an xref table entry ...).
+var c08TestCalls = map[string]string{
+	"pkg/pdfcpu/model.XRefTable.IsValid":             "xref entry valid flags",
+	"pkg/pdfcpu/model.XRefTable.IsObjValid":          "xref entry valid flags",
+	"pkg/pdfcpu/model.XRefTable.IsBeingValidated":    "xref entry valid flags",
+	"pkg/pdfcpu/model.XRefTable.IsObjBeingValidated": "xref entry valid flags",
+}
+var c08SetCalls = map[string]string{
+	"pkg/pdfcpu/model.XRefTable.SetValid":          "xref entry valid flags",
+	"pkg/pdfcpu/model.XRefTable.SetBeingValidated": "xref entry valid flags",
+}
+
+// c08TestAndSetCalls: calls that test and set a visited mark in one step; their bool result is true when the object had been
+// visited before (DereferenceStreamDict marks the xref entry valid and reports whether it already was).
+var c08TestAndSetCalls = map[string]string{
+	"pkg/pdfcpu/model.XRefTable.DereferenceStreamDict": "xref entry valid flag (test-and-set)",
+	"pkg/pdfcpu.formResourcesVisited":                  "Optimize.FormResourceCache per page (test-and-set)",
+}
+
+// c08SliceTests: membership tests on a visited slice (argument index of the slice); the matching set is append(slice, ...).
+var c08SliceTests = map[string]int{
+	"pkg/pdfcpu.visited": 1,
+}
+
+// guardSet: the guard functions of the program = base guards + every error-returning function all of whose
+// possibly-nil-error returns are reached only after passing a guard (checkBookmarkCycle, outlineItemDict, enterNestedValidation ...).
+type guardSet struct {
+	p     *Program
+	funcs map[string]string // ref -> kind/detail
+	// ptrFuncs: functions whose first result is a pointer that is non-nil only after a guard was passed (nil = "seen before")
+	ptrFuncs map[string]string
+	memo     map[*ssa.Function]*guardFacts
+}
+
+func ptrResults(call ssa.Value) []ssa.Value {
+	var out []ssa.Value
+	if tup, ok := call.Type().(*types.Tuple); ok {
+		for _, r := range *call.Referrers() {
+			if ex, ok := r.(*ssa.Extract); ok && ex.Index == 0 {
+				if _, isPtr := tup.At(0).Type().Underlying().(*types.Pointer); isPtr {
+					out = append(out, ex)
+				}
+			}
+		}
+	}
+	return out
+}
+
+// paramRooted: v is computed from a parameter (or captured variable) of its function: fields, loads, arithmetic, conversions and
+// method calls on such values. Constants and locally created containers are not.
+func paramRooted(v ssa.Value, d int) bool {
+	if d > 8 {
+		return false
+	}
+	switch x := v.(type) {
+	case *ssa.Parameter, *ssa.FreeVar:
+		return true
+	case *ssa.Const, *ssa.MakeMap, *ssa.Alloc:
+		if al, ok := x.(*ssa.Alloc); ok && singleAssignedCell(al) {
+			for _, r := range *al.Referrers() {
+				if st, ok := r.(*ssa.Store); ok && st.Addr == ssa.Value(al) {
+					return paramRooted(st.Val, d+1)
+				}
+			}
+		}
+		return false
+	case *ssa.UnOp:
+		return paramRooted(x.X, d+1)
+	case *ssa.FieldAddr:
+		return paramRooted(x.X, d+1)
+	case *ssa.Field:
+		return paramRooted(x.X, d+1)
+	case *ssa.ChangeType:
+		return paramRooted(x.X, d+1)
+	case *ssa.Convert:
+		return paramRooted(x.X, d+1)
+	case *ssa.BinOp:
+		return paramRooted(x.X, d+1) || paramRooted(x.Y, d+1)
+	case *ssa.Call:
+		if x.Call.IsInvoke() {
+			return paramRooted(x.Call.Value, d+1)
+		}
+		if f := staticCallee(x); f != nil && f.Signature.Recv() != nil && len(x.Call.Args) >= 1 {
+			return paramRooted(x.Call.Args[0], d+1) // accessor such as ir.ObjectNumber.Value(), d.Entry(...)
+		}
+	case *ssa.Extract:
+		return paramRooted(x.Tuple, d+1)
+	case *ssa.Lookup:
+		return paramRooted(x.X, d+1)
+	case *ssa.Index:
+		return paramRooted(x.X, d+1)
+	case *ssa.IndexAddr:
+		return paramRooted(x.X, d+1)
+	case *ssa.TypeAssert:
+		return paramRooted(x.X, d+1)
+	case *ssa.Phi:
+		for _, e := range x.Edges {
+			if paramRooted(e, d+3) {
+				return true
+			}
+		}
+	}
+	return false
+}
+
+// subjectArgsRooted: the arguments a guard decides on (ints, maps, visit states incl. the receiver) all come from the caller.
+func subjectArgsRooted(call *ssa.Call, allowState bool) bool {
+	ints, intsRooted, others := 0, 0, 0
+	for _, a := range call.Call.Args {
+		switch tt := a.Type().Underlying().(type) {
+		case *types.Basic:
+			if tt.Info()&types.IsInteger != 0 {
+				ints++
+				if paramRooted(a, 0) {
+					intsRooted++
+				}
+			}
+		case *types.Map:
+			others++
+			if !paramRooted(a, 0) {
+				return false
+			}
+		case *types.Pointer:
+			if strings.HasSuffix(tt.Elem().String(), "Visit") {
+				others++
+				if !paramRooted(a, 0) {
+					return false
+				}
+			}
+		}
+	}
+	if ints > 0 && intsRooted == 0 {
+		return false
+	}
+	if ints+others == 0 {
+		if !allowState {
+			return false
+		}
+		// state carried inside a struct handed in by the caller (enterNestedValidation(xRefTable, ...))
+		for _, a := range call.Call.Args {
+			if _, ok := a.Type().Underlying().(*types.Pointer); ok && paramRooted(a, 0) {
+				return true
+			}
+		}
+		return false
+	}
+	return true
+}
+
+type guardFacts struct {
+	fn    *ssa.Function
+	genE  map[Edge][]string
+	genI  map[ssa.Instruction][]string
+	killI map[ssa.Instruction][]string
+	all   []string
+	desc  []string
+	tails map[*ssa.Call]bool // guard calls (their error result returned directly is a guarded return)
+}
+
+func accessPath(v ssa.Value) string {
+	switch x := v.(type) {
+	case *ssa.Parameter:
+		return x.Name()
+	case *ssa.FreeVar:
+		return "^" + x.Name()
+	case *ssa.UnOp:
+		if x.Op == token.MUL {
+			if al, ok := x.X.(*ssa.Alloc); ok {
+				if singleAssignedCell(al) {
+					for _, r := range *al.Referrers() {
+						if st, ok := r.(*ssa.Store); ok && st.Addr == ssa.Value(al) {
+							return accessPath(st.Val)
+						}
+					}
+				}
+				return al.Name()
+			}
+			return accessPath(x.X)
+		}
+	case *ssa.FieldAddr:
+		if f := structField(x.X.Type(), x.Field); f != nil {
+			return accessPath(x.X) + "." + f.Name()
+		}
+	case *ssa.Field:
+		if f := structField(x.X.Type(), x.Field); f != nil {
+			return accessPath(x.X) + "." + f.Name()
+		}
+	case *ssa.ChangeType:
+		return accessPath(x.X)
+	}
+	return v.Name()
+}
+
+func newGuardSet(p *Program) *guardSet {
+	gs := &guardSet{p: p, funcs: map[string]string{}, ptrFuncs: map[string]string{}, memo: map[*ssa.Function]*guardFacts{}}
+	for k, v := range c08BaseGuards {
+		gs.funcs[k] = v + ":" + k
+	}
+	// candidates: error-returning module functions
+	changed := true
+	for round := 0; changed && round < 6; round++ {
+		changed = false
+		gs.memo = map[*ssa.Function]*guardFacts{}
+		for _, fn := range p.Funcs {
+			if fn.Parent() != nil || len(fn.Blocks) == 0 {
+				continue
+			}
+			o := fn.Object()
+			if o == nil {
+				continue
+			}
+			ref := objRef(o)
+			if _, ok := gs.funcs[ref]; ok {
+				continue
+			}
+			if _, ok := gs.ptrFuncs[ref]; ok {
+				continue
+			}
+			res := fn.Signature.Results()
+			if res.Len() == 0 || !isErrorType(res.At(res.Len()-1).Type()) {
+				continue
+			}
+			gf := gs.facts(fn, nil)
+			if len(gf.all) == 0 {
+				continue
+			}
+			ff := gf.flow(nil)
+			ok, n := true, 0
+			for _, ret := range returnsOf(fn) {
+				if k, _ := returnErrKind(ret); k == errNonNil {
+					continue
+				}
+				n++
+				if gf.satisfied(ff, ret) || gf.tailGuard(ret) {
+					continue
+				}
+				ok = false
+			}
+			if ok && n > 0 {
+				gs.funcs[ref] = "summary:" + ref + " <- " + strings.Join(gf.desc, ",")
+				changed = true
+				continue
+			}
+			// pointer-result summary
+			if _, isPtr := res.At(0).Type().Underlying().(*types.Pointer); isPtr && res.Len() >= 2 {
+				ok, n := true, 0
+				for _, ret := range returnsOf(fn) {
+					if isNilConst(ret.Results[0]) {
+						continue
+					}
+					if k, _ := returnErrKind(ret); k == errNonNil {
+						continue
+					}
+					n++
+					if !gf.satisfied(ff, ret) {
+						ok = false
+					}
+				}
+				if ok && n > 0 {
+					gs.ptrFuncs[ref] = "summary(non-nil result):" + ref + " <- " + strings.Join(gf.desc, ",")
+					changed = true
+				}
+			}
+		}
+	}
+	gs.memo = map[*ssa.Function]*guardFacts{}
+	return gs
+}
+
+func (gf *guardFacts) tailGuard(ret *ssa.Return) bool {
+	for _, res := range ret.Results {
+		if !isErrorType(res.Type()) {
+			continue
+		}
+		v := res
+		if ld, ok := v.(*ssa.UnOp); ok && ld.Op == token.MUL {
+			if st, _ := reachingStore(ld); st != nil {
+				v = st.Val
+			}
+		}
+		if ex, ok := v.(*ssa.Extract); ok {
+			v = ex.Tuple
+		}
+		if call, ok := v.(*ssa.Call); ok && gf.tails[call] {
+			return true
+		}
+	}
+	return false
+}
+
+func (gf *guardFacts) flow(killAt map[ssa.Instruction]bool) *FactFlow {
+	return NewFactFlow(gf.fn, func(i ssa.Instruction) []string { return gf.genI[i] }, gf.genE, func(i ssa.Instruction) []string {
+		if killAt[i] {
+			return gf.all
+		}
+		return gf.killI[i]
+	}, nil)
+}
+
+// satisfied: at instruction i a complete guard has been passed: "g", or a test and a set on the same container.
+func (gf *guardFacts) satisfied(ff *FactFlow, i ssa.Instruction) bool {
+	facts, unreachable := ff.At(i)
+	if unreachable {
+		return true
+	}
+	if facts["g"] {
+		return true
+	}
+	for f := range facts {
+		if strings.HasPrefix(f, "t:") && facts["s:"+f[2:]] {
+			return true
+		}
+	}
+	return false
+}
+
+// facts collects the guard constructs of fn. With scc == nil (summary mode) only guards that decide on values handed in by
+// the caller count; with scc set (fn is analysed as a member of that recursion component, or for one of its loops) local
+// containers, flags and inline depth comparisons count as well.
+func (gs *guardSet) facts(fn *ssa.Function, scc map[*ssa.Function]bool) *guardFacts {
+	return gs.factsMode(fn, scc, false)
+}
+
+// factsMode: loop mode (the guard only has to hold per iteration of a loop inside fn) also accepts containers created
+// locally in fn; recursion and summary modes need the guard state to come from the caller.
+func (gs *guardSet) factsMode(fn *ssa.Function, scc map[*ssa.Function]bool, loop bool) *guardFacts {
+	summary := scc == nil && !loop
+	rooted := !loop
+	if !summary && !loop {
+		if gf, ok := gs.memo[fn]; ok {
+			return gf
+		}
+	}
+	gf := &guardFacts{fn: fn, genE: map[Edge][]string{}, genI: map[ssa.Instruction][]string{}, killI: map[ssa.Instruction][]string{}, tails: map[*ssa.Call]bool{}}
+	if !summary && !loop {
+		gs.memo[fn] = gf
+	}
+	allSet := map[string]bool{}
+	addE := func(es []Edge, f, d string) {
+		if len(es) == 0 {
+			return
+		}
+		for _, e := range es {
+			gf.genE[e] = append(gf.genE[e], f)
+		}
+		allSet[f] = true
+		gf.desc = append(gf.desc, d)
+	}
+	boolEdges := func(v ssa.Value, want bool) []Edge {
+		var es []Edge
+		for _, al := range wideAliases(v) {
+			es = append(es, condEdges(al, want)...)
+		}
+		return es
+	}
 	eachInstr(fn, func(_ *ssa.BasicBlock, _ int, i ssa.Instruction) {
 		switch x := i.(type) {
 		case *ssa.Call:
 			_, ref := callRef(x)
-			if k, ok := c08GuardCalls[ref]; ok {
-				guards[i] = k + ":" + ref
+			if d, ok := gs.funcs[ref]; ok {
+				// a guard whose state lives in a struct (nesting counter) is undone when its caller returns: it bounds the
+				// recursion of the function that calls it, but does not make that function a guard for others
+				if rooted && !subjectArgsRooted(x, !summary) {
+					return
+				}
+				if es, has := successEdges(x); has {
+					addE(es, "g", d)
+				}
+				gf.tails[x] = true
+				allSet["g"] = true
 				return
 			}
-			if strings.HasSuffix(ref, ".Enter") && strings.Contains(ref, "Visit") {
-				guards[i] = "visited:" + ref
+			if fam, ok := c08TestCalls[ref]; ok {
+				for _, bv := range boolResults(x) {
+					addE(boolEdges(bv, false), "t:"+fam, "visited:"+ref)
+				}
+				return
+			}
+			if fam, ok := c08SetCalls[ref]; ok {
+				gf.genI[i] = append(gf.genI[i], "s:"+fam)
+				allSet["s:"+fam] = true
+				return
+			}
+			if idx, ok := c08SliceTests[ref]; ok && len(x.Call.Args) > idx {
+				if summary {
+					return
+				}
+				for _, bv := range boolResults(x) {
+					addE(boolEdges(bv, false), "t:slice "+x.Call.Args[idx].Name(), "visited:"+ref)
+				}
+				return
+			}
+			if b, ok := x.Call.Value.(*ssa.Builtin); ok && b.Name() == "append" && len(x.Call.Args) > 0 && !summary {
+				f := "s:slice " + x.Call.Args[0].Name()
+				gf.genI[i] = append(gf.genI[i], f)
+				allSet[f] = true
+				return
+			}
+			if d, ok := c08TestAndSetCalls[ref]; ok {
+				if summary && !(len(x.Call.Args) > 1 && paramRooted(x.Call.Args[1], 0)) {
+					return
+				}
+				for _, bv := range boolResults(x) {
+					addE(boolEdges(bv, false), "g", "visited:"+ref+" "+d)
+				}
+				return
+			}
+			if gs.ptrFuncs[ref] != "" {
+				// result pointer is non-nil only if the callee passed a guard
+				if summary && !(len(x.Call.Args) > 1 && paramRooted(x.Call.Args[1], 0)) {
+					return
+				}
+				for _, pv := range ptrResults(x) {
+					addE(nilCheckEdges(pv, false), "g", "visited:"+ref+" (non-nil result)")
+				}
+				return
+			}
+			// delete(m, k) undoes a set
+			if b, ok := x.Call.Value.(*ssa.Builtin); ok && b.Name() == "delete" && len(x.Call.Args) > 0 {
+				gf.killI[i] = append(gf.killI[i], "s:"+accessPath(x.Call.Args[0]))
 			}
 		case *ssa.BinOp:
-			// inline depth check: intParam > const/limit  leading to a return
-			if x.Op == token.GTR || x.Op == token.GEQ {
-				if prm, ok := x.X.(*ssa.Parameter); ok && isIntType(prm.Type()) {
-					for _, e := range condEdges(x, true) {
-						tgt := e.From.Succs[e.Succ]
-						if _, ok := tgt.Instrs[len(tgt.Instrs)-1].(*ssa.Return); ok {
-							guards[i] = "depth:inline " + prm.Name()
-						}
-					}
+			// inline depth bound: intParam > limit where limit is not itself a parameter, and the parameter is handed on
+			if summary || (x.Op != token.GTR && x.Op != token.GEQ) {
+				return
+			}
+			prm, ok := x.X.(*ssa.Parameter)
+			if !ok || !isIntType(prm.Type()) {
+				return
+			}
+			switch x.Y.(type) {
+			case *ssa.Parameter, *ssa.Phi:
+				return
+			}
+			if c, ok := x.Y.(*ssa.Call); ok {
+				if b, ok := c.Call.Value.(*ssa.Builtin); ok && (b.Name() == "len" || b.Name() == "cap") {
+					return
 				}
 			}
+			if !paramHandedOn(prm, scc) {
+				return
+			}
+			addE(condEdges(x, false), "g", "depth:inline "+prm.Name())
 		case *ssa.Lookup:
-			// visited[k] test followed by return on true, and a MapUpdate visited[k] = true somewhere in fn
 			if _, isMap := x.X.Type().Underlying().(*types.Map); !isMap {
 				return
 			}
-			mu := false
-			eachInstr(fn, func(_ *ssa.BasicBlock, _ int, j ssa.Instruction) {
-				if m, ok := j.(*ssa.MapUpdate); ok && (m.Map == x.X || sameValue(m.Map, x.X)) {
-					mu = true
-				}
-			})
-			if !mu {
-				return
-			}
-			var bv ssa.Value = x
+			var bv ssa.Value
 			if x.CommaOk {
 				for _, rf := range *x.Referrers() {
 					if ex, ok := rf.(*ssa.Extract); ok && ex.Index == 1 {
 						bv = ex
 					}
 				}
+			} else if isBoolType(x.Type()) {
+				bv = x
 			}
-			for _, al := range wideAliases(bv) {
-				for _, e := range condEdges(al, true) {
-					tgt := e.From.Succs[e.Succ]
-					if _, ok := tgt.Instrs[len(tgt.Instrs)-1].(*ssa.Return); ok {
-						guards[i] = "visited:inline map test-and-set"
-					}
+			if bv == nil {
+				return
+			}
+			if rooted && !paramRooted(x.X, 0) {
+				return
+			}
+			m := accessPath(x.X)
+			addE(boolEdges(bv, false), "t:"+m, "visited:map "+m)
+		case *ssa.MapUpdate:
+			m := accessPath(x.Map)
+			gf.genI[i] = append(gf.genI[i], "s:"+m)
+			allSet["s:"+m] = true
+		case *ssa.UnOp:
+			// flag test: load of a bool struct field
+			if summary || x.Op != token.MUL || !isBoolType(x.Type()) {
+				return
+			}
+			if _, ok := x.X.(*ssa.FieldAddr); !ok {
+				return
+			}
+			m := accessPath(x.X)
+			addE(boolEdges(x, false), "t:"+m, "visited:flag "+m)
+		case *ssa.Store:
+			if _, ok := x.Addr.(*ssa.FieldAddr); !ok || !isBoolType(x.Val.Type()) {
+				return
+			}
+			m := accessPath(x.Addr)
+			if c, ok := x.Val.(*ssa.Const); ok && c.Value != nil {
+				if c.Value.String() == "true" {
+					gf.genI[i] = append(gf.genI[i], "s:"+m)
+					allSet["s:"+m] = true
+				} else {
+					gf.killI[i] = append(gf.killI[i], "s:"+m)
 				}
 			}
 		}
 	})
-	if len(guards) == 0 {
+	for f := range allSet {
+		gf.all = append(gf.all, f)
+	}
+	sort.Strings(gf.all)
+	sort.Strings(gf.desc)
+	return gf
+}
+
+// paramHandedOn: the int parameter (or parameter+const) is an argument of some call in its function.
+func paramHandedOn(prm *ssa.Parameter, scc map[*ssa.Function]bool) bool {
+	for _, r := range *prm.Referrers() {
+		switch x := r.(type) {
+		case ssa.CallInstruction:
+			for _, a := range x.Common().Args {
+				if a == ssa.Value(prm) {
+					if _, isB := x.Common().Value.(*ssa.Builtin); !isB {
+						if f := staticCallee(x); f != nil && scc[unwrapSynthetic(f)] {
+							return true
+						}
+					}
+				}
+			}
+		case *ssa.BinOp:
+			if x.Op == token.ADD {
+				if _, ok := x.Y.(*ssa.Const); ok {
+					for _, r2 := range *x.Referrers() {
+						if c, ok := r2.(ssa.CallInstruction); ok {
+							if f := staticCallee(c); f != nil && scc[unwrapSynthetic(f)] {
+								return true
+							}
+						}
+					}
+				}
+			}
+		}
+	}
+	return false
+}
+
+// guardKind: fn (a member of recursion component scc) passes a guard on every path to each of its intra-component calls.
+func (gs *guardSet) guardKind(fn *ssa.Function, scc map[*ssa.Function]bool) (kind, detail string) {
+	gf := gs.facts(fn, scc)
+	if len(gf.all) == 0 {
 		return "", ""
 	}
-	// the guard must precede every intra-SCC call
-	ff := NewFactFlow(fn, func(i ssa.Instruction) []string {
-		if _, ok := guards[i]; ok {
-			return []string{"guarded"}
-		}
-		return nil
-	}, nil, nil, nil)
+	ff := gf.flow(nil)
 	ok := true
 	eachInstr(fn, func(_ *ssa.BasicBlock, _ int, i ssa.Instruction) {
 		call, isCall := i.(ssa.CallInstruction)
@@ -102,7 +571,7 @@ func guardKind(fn *ssa.Function, scc map[*ssa.Function]bool) (kind, detail strin
 			return
 		}
 		if g := staticCallee(call); g != nil && scc[unwrapSynthetic(g)] {
-			if !ff.Holds(i, "guarded") {
+			if !gf.satisfied(ff, i) {
 				ok = false
 			}
 		}
@@ -110,12 +579,8 @@ func guardKind(fn *ssa.Function, scc map[*ssa.Function]bool) (kind, detail strin
 	if !ok {
 		return "", "guard present but some recursive call is reachable without passing it"
 	}
-	var ks []string
-	for _, g := range guards {
-		ks = append(ks, g)
-	}
-	sort.Strings(ks)
-	return strings.SplitN(ks[0], ":", 2)[0], ks[0]
+	d := strings.Join(gf.desc, ",")
+	return strings.SplitN(d, ":", 2)[0], d
 }
 
 func isIntType(t types.Type) bool {
@@ -135,6 +600,16 @@ func init() {
 		}
 		sccs := recursionSCCs(p, cg)
 		res := resolvers(p)
+		gs := newGuardSet(p)
+		var gl []string
+		for k, v := range gs.funcs {
+			gl = append(gl, k+" = "+v)
+		}
+		sort.Strings(gl)
+		for k, v := range gs.ptrFuncs {
+			gl = append(gl, k+" = "+v)
+		}
+		fmt.Println("guard functions:\n  " + strings.Join(gl, "\n  "))
 		for _, comp := range sccs {
 			set := map[*ssa.Function]bool{}
 			for _, f := range comp {
@@ -142,7 +617,7 @@ func init() {
 			}
 			var guarded, unguarded []string
 			for _, f := range comp {
-				if k, d := guardKind(f, set); k != "" {
+				if k, d := gs.guardKind(f, set); k != "" {
 					guarded = append(guarded, FuncID(f)+"["+d+"]")
 				} else {
 					unguarded = append(unguarded, FuncID(f))
@@ -151,7 +626,7 @@ func init() {
 			// acyclic after removing guarded?
 			rest := map[*ssa.Function]bool{}
 			for _, f := range comp {
-				if k, _ := guardKind(f, set); k == "" {
+				if k, _ := gs.guardKind(f, set); k == "" {
 					rest[f] = true
 				}
 			}
